@@ -7,7 +7,9 @@
 (* mappingQueueManager[Memfd] / createQueueFromBytes / mappingQueueFromBytes.                                         *)
 (*                                                                                                                    *)
 (* The arithmetic lives in operators (Create, Map, QCreate, QMap). A three-step state machine                         *)
-(*     pick --PickStep--> start --CreateStep--> created --MapStep--> mapped   (or failed / panicked / mapfailed)       *)
+(*     pick --PickStep--> start --CreateStep--> created --AllocStep(k)--> held --MapStep--> mapped                     *)
+(*     (or failed / panicked / mapfailed). AllocStep: the creator already holds k buffers of every class when the     *)
+(*     peer attaches (late attach, hot restart), so the peer reads header words with size < cap and a moved head.     *)
 (* ranges over a grid of configurations (PickStep chooses one; one initial state per mapping length, so the workers  *)
 (* share the enumeration - enumerating the grid as initial states is single-threaded and 5x slower), so that the      *)
 (* properties are ordinary                                                                                            *)
@@ -44,6 +46,8 @@ CONSTANTS
     Extra,                \* explicit configurations <<memLen, <<<<size, pct>>, ...>>, viaGlobal>> (random realistic ones)
     QueueCaps,            \* queue capacities
     Arms,                 \* subset of BOOLEAN: header variants (isArmArch) to check
+    Helds,                \* how many buffers of every class the creator holds when the peer maps: k >= 0 means
+                          \* min(k, cap-1), -1 means cap-1 (everything that can be allocated)
     SmallCap,             \* lists with at most this many slots get slot-by-slot quantification
     M,                    \* word modulus, 0 = mathematical integers
     Emit                  \* print one prediction row per configuration
@@ -130,7 +134,11 @@ Create(memLen, pairs) ==
 
 \* what the creator leaves in the shared memory for the peer: word offset -> value
 \* manager header: listNum at 0, used length at 4; list header at off: size, cap, head, tail, capPerBuffer
-HdrWords(r) ==
+\* k: buffers held by the creator (late attach / hot restart: the peer maps a memory that is already in use). A pop
+\* of a fresh list takes the head slot, so after h pops size = cap - h and head = h * stride; the last slot is never
+\* handed out (pop refuses when size would drop to 0), so h <= cap - 1.
+HeldEff(l, k) == IF k < 0 \/ k > l.cap - 1 THEN l.cap - 1 ELSE k
+HdrWords(r, k) ==
     LET n == Len(r.lists)
         dom == {0, 4} \cup UNION {{r.lists[i].off + w : w \in {0, 4, 8, 12, 16}} : i \in 1..n}
         val(o) == IF o = 0 THEN n
@@ -138,9 +146,9 @@ HdrWords(r) ==
                   ELSE LET i == CHOOSE j \in 1..n : o - r.lists[j].off \in {0, 4, 8, 12, 16}
                            l == r.lists[i]
                            w == o - l.off
-                       IN CASE w = 0  -> l.cap
+                       IN CASE w = 0  -> l.cap - HeldEff(l, k)
                             [] w = 4  -> l.cap
-                            [] w = 8  -> 0
+                            [] w = 8  -> U(HeldEff(l, k) * l.stride)
                             [] w = 12 -> U((l.cap - 1) * l.stride)
                             [] w = 16 -> l.capPer
     IN [o \in dom |-> val(o)]
@@ -190,18 +198,20 @@ QMap(w, total, arm) ==
              send |-> QView(h, Rd(w, h), arm), recv |-> QView(0, Rd(w, 0), arm)]
 
 -----------------------------------------------------------------------------
-VARIABLES kind, cfg, phase, words, A, B
-vars == <<kind, cfg, phase, words, A, B>>
+VARIABLES kind, cfg, phase, words, A, B, held
+vars == <<kind, cfg, phase, words, A, B, held>>
 
 RECURSIVE FlatPairs(_, _)
 FlatPairs(ps, i) == IF i > Len(ps) THEN <<>> ELSE <<ps[i][1], ps[i][2]>> \o FlatPairs(ps, i + 1)
-RECURSIVE FlatLists(_, _)
-FlatLists(ls, i) == IF i > Len(ls) THEN <<>> ELSE <<ls[i].off, ls[i].cap, ls[i].capPer>> \o FlatLists(ls, i + 1)
+RECURSIVE FlatLists(_, _, _)
+FlatLists(ls, w, i) == IF i > Len(ls) THEN <<>>
+                      ELSE <<ls[i].off, ls[i].cap, ls[i].capPer, Rd(w, ls[i].off), Rd(w, ls[i].off + 8)>> \o FlatLists(ls, w, i + 1)
 B01(b) == IF b THEN 1 ELSE 0
-\* @B <<viaGlobal, memLen, nPairs, (size, pct)*, creatorOk, peerOk (2 = not attempted), nLists, (off, cap, capPer)*, used>>
-BufRow(c, a, bOk) ==
-    <<B01(c.global), c.mem, Len(c.pairs)>> \o FlatPairs(c.pairs, 1) \o <<B01(a.ok), bOk, Len(a.lists)>>
-        \o FlatLists(a.lists, 1) \o <<a.used>>
+\* @B <<viaGlobal, held, memLen, nPairs, (size, pct)*, creatorOk, peerOk (2 = not attempted), nLists,
+\*      (off, cap, capPer, size word, head word when the peer maps)*, used>>
+BufRow(c, k, w, a, bOk) ==
+    <<B01(c.global), k, c.mem, Len(c.pairs)>> \o FlatPairs(c.pairs, 1) \o <<B01(a.ok), bOk, Len(a.lists)>>
+        \o FlatLists(a.lists, w, 1) \o <<a.used>>
 \* @Q <<cap, arm, total, A.send.base, A.recv.base, B.send.base, B.recv.base, head, tail, flag, ring (relative), ring bytes>>
 QRow(c, a, b) ==
     <<c.cap, B01(c.arm), a.total, a.send.base, a.recv.base, b.send.base, b.recv.base,
@@ -210,44 +220,49 @@ QRow(c, a, b) ==
 Say(tag, row) == Emit => PrintT(tag \o " " \o ToString(row))
 
 Init ==
-    /\ phase = "pick" /\ words = <<>>
+    /\ phase = "pick" /\ words = <<>> /\ held = 0
     /\ \/ kind = "buf" /\ cfg \in {[mem |-> m] : m \in MemLens \cup {-1}} /\ A = None /\ B = None
        \/ kind = "queue" /\ cfg = [mem |-> -2] /\ A = QNone /\ B = QNone
 PickStep ==
     /\ phase = "pick" /\ phase' = "start"
     /\ cfg' \in (IF kind = "queue" THEN QueueCfgs ELSE IF cfg.mem = -1 THEN ExtraCfgs ELSE GridCfgs(cfg.mem))
-    /\ UNCHANGED <<kind, words, A, B>>
+    /\ UNCHANGED <<kind, words, A, B, held>>
 
 CreateStep ==
     /\ kind = "buf" /\ phase = "start"
     /\ LET r == Create(cfg.mem, EffPairs(cfg))
        IN /\ A' = r
-          /\ IF r.ok THEN phase' = "created" /\ words' = HdrWords(r)
+          /\ IF r.ok THEN phase' = "created" /\ words' = HdrWords(r, 0)
                      ELSE /\ phase' = (IF r.panic THEN "panicked" ELSE "failed") /\ words' = words
-                          /\ Say("@B", BufRow(cfg, r, 2))
-    /\ UNCHANGED <<kind, cfg, B>>
-MapStep ==
+                          /\ Say("@B", BufRow(cfg, 0, words, r, 2))
+    /\ UNCHANGED <<kind, cfg, B, held>>
+\* the creator allocates k buffers of every class (real pops) before the peer attaches
+AllocStep(k) ==
     /\ kind = "buf" /\ phase = "created"
+    /\ phase' = "held" /\ held' = k /\ words' = HdrWords(A, k)
+    /\ UNCHANGED <<kind, cfg, A, B>>
+MapStep ==
+    /\ kind = "buf" /\ phase = "held"
     /\ LET r == Map(words, cfg.mem)
        IN /\ B' = r
           /\ phase' = (IF r.ok THEN "mapped" ELSE "mapfailed")
-          /\ Say("@B", BufRow(cfg, A, B01(r.ok)))
-    /\ UNCHANGED <<kind, cfg, words, A>>
+          /\ Say("@B", BufRow(cfg, held, words, A, B01(r.ok)))
+    /\ UNCHANGED <<kind, cfg, words, A, held>>
 QCreateStep ==
     /\ kind = "queue" /\ phase = "start"
     /\ LET r == QCreate(cfg.cap, cfg.arm)
        IN /\ A' = r
           /\ IF r.ok THEN phase' = "created" /\ words' = QWords(cfg.cap)
                      ELSE phase' = "panicked" /\ words' = words
-    /\ UNCHANGED <<kind, cfg, B>>
+    /\ UNCHANGED <<kind, cfg, B, held>>
 QMapStep ==
     /\ kind = "queue" /\ phase = "created"
     /\ LET r == QMap(words, A.total, cfg.arm)
        IN /\ B' = r
           /\ phase' = (IF r.ok THEN "mapped" ELSE "panicked")
           /\ (r.ok => Say("@Q", QRow(cfg, A, r)))
-    /\ UNCHANGED <<kind, cfg, words, A>>
-Next == PickStep \/ CreateStep \/ MapStep \/ QCreateStep \/ QMapStep
+    /\ UNCHANGED <<kind, cfg, words, A, held>>
+Next == PickStep \/ CreateStep \/ (\E k \in Helds : AllocStep(k)) \/ MapStep \/ QCreateStep \/ QMapStep
 Spec == Init /\ [][Next]_vars
 
 -----------------------------------------------------------------------------
@@ -287,14 +302,21 @@ ClassesAsConfigured(c, r) ==
 NoPanic == phase # "panicked"
 PeerMaps == phase # "mapfailed"
 LayoutSound ==
-    (kind = "buf" /\ phase \in {"created", "mapped"}) =>
+    (kind = "buf" /\ phase \in {"created", "held", "mapped"}) =>
         /\ GeomOK(cfg.mem, A) /\ SlotsOK(cfg.mem, A) /\ ClassesAsConfigured(cfg, A)
 PeerSame ==
     (kind = "buf" /\ phase = "mapped") =>
         /\ B.lists = A.lists /\ B.used = A.used
         /\ GeomOK(cfg.mem, B) /\ SlotsOK(cfg.mem, B)
+\* the words the peer reads while buffers are held: the free count is below the capacity, never below 1, head on a slot
+HeldWords ==
+    (kind = "buf" /\ phase \in {"held", "mapped"}) =>
+        \A i \in DOMAIN A.lists :
+            LET l == A.lists[i] IN
+            /\ Rd(words, l.off) = l.cap - HeldEff(l, held) /\ Rd(words, l.off) >= 1 /\ Rd(words, l.off + 4) = l.cap
+            /\ Rd(words, l.off + 8) = U(HeldEff(l, held) * l.stride)
 SortedThroughGlobal ==
-    (kind = "buf" /\ phase \in {"created", "mapped"} /\ cfg.global) =>
+    (kind = "buf" /\ phase \in {"created", "held", "mapped"} /\ cfg.global) =>
         \A i \in 1..(Len(A.lists) - 1) : A.lists[i].capPer < A.lists[i + 1].capPer
 
 \* C03, queue part
